@@ -66,6 +66,81 @@ def _placeholder(sort, i):
 VAR0 = z3.Int("V!0")
 
 
+_AC_KINDS = None
+
+
+def _ac_kinds():
+    global _AC_KINDS
+    if _AC_KINDS is None:
+        _AC_KINDS = {z3.Z3_OP_AND: "and", z3.Z3_OP_OR: "or", z3.Z3_OP_ADD: "+", z3.Z3_OP_MUL: "*", z3.Z3_OP_EQ: "=",
+                     z3.Z3_OP_DISTINCT: "distinct"}
+    return _AC_KINDS
+
+
+def canon_term(t):
+    """rebuild a (simplified) term with the arguments of associative-commutative operators in an order that does not
+    depend on z3's internal AST ids (z3.simplify sorts them by id, i.e. by creation order, which differs between two
+    executions of the same code): arguments are ordered by a structural hash.  The result is logically equal to t."""
+    import hashlib
+    ac = _ac_kinds()
+    memo = {}
+
+    def go(e):
+        i = e.get_id()
+        r = memo.get(i)
+        if r is not None:
+            return r
+        if z3.is_quantifier(e) or not z3.is_app(e) or e.num_args() == 0:
+            if z3.is_app(e) and e.decl().kind() == z3.Z3_OP_UNINTERPRETED:
+                # free constants (they become parameters, whatever their names) and the bound variable: by sort only
+                key = "const|" + e.sort().name()
+            else:
+                key = "leaf|" + e.sexpr() + "|" + e.sort().name()
+            r = (hashlib.sha1(key.encode()).hexdigest(), e)
+            memo[i] = r
+            return r
+        d = e.decl()
+        kids = [go(c) for c in e.children()]
+        k = d.kind()
+        if k in ac:
+            kids = sorted(kids, key=lambda x: x[0])
+            ch = [x[1] for x in kids]
+            if k == z3.Z3_OP_AND:
+                ne = z3.And(*ch)
+            elif k == z3.Z3_OP_OR:
+                ne = z3.Or(*ch)
+            elif k == z3.Z3_OP_ADD:
+                ne = ch[0]
+                for c in ch[1:]:
+                    ne = ne + c
+            elif k == z3.Z3_OP_MUL:
+                ne = ch[0]
+                for c in ch[1:]:
+                    ne = ne * c
+            elif k == z3.Z3_OP_EQ:
+                ne = ch[0] == ch[1]
+            else:
+                ne = z3.Distinct(*ch)
+            name = ac[k]
+        else:
+            ch = [x[1] for x in kids]
+            if all(a.eq(b) for a, b in zip(ch, e.children())):
+                ne = e
+            else:
+                try:
+                    ne = d(*ch)
+                except Exception:
+                    ne = e.decl()(*ch) if False else z3.substitute(e, *[(a, b) for a, b in zip(e.children(), ch) if not a.eq(b)])
+            name = d.name() + "#" + str(k) + "#" + ",".join(str(d.params()[j]) for j in range(len(d.params()))) if k != z3.Z3_OP_UNINTERPRETED else "uf:" + d.name()
+        h = hashlib.sha1((name + "(" + ",".join(x[0] for x in kids) + ")").encode()).hexdigest()
+        r = (h, ne)
+        memo[i] = r
+        return r
+    import sys
+    sys.setrecursionlimit(max(sys.getrecursionlimit(), 20000))
+    return go(t)[1]
+
+
 def Sum(lo, hi, f):
     """Σ_{t=lo}^{hi-1} f(t); f maps an index value to a scalar value (conc / SV / Cx)"""
     lo, hi = norm(lo), norm(hi)
@@ -90,6 +165,7 @@ def _sum_term(lo, hi, t, body):
         return 0
     if z3.is_rational_value(bt) and bt.numerator_as_long() == 0:
         return 0
+    bt = canon_term(bt)
     frees = free_consts(bt, exclude=[t])
     placeholders = [_placeholder(c.sort(), i) for i, c in enumerate(frees)]
     canon = z3.substitute(bt, (t, VAR0), *zip(frees, placeholders)) if frees else z3.substitute(bt, (t, VAR0))
